@@ -60,7 +60,13 @@ var boundedRegistry = map[string][]boundedSpec{
 	"C15": {{Name: "struct key selection against encoding/json", Pkg: ".", Template: "json_keymatch.go",
 		What: "stands in for what the scanner contracts assume or leave outside: the bitmap built by tryOptimize (wfRows/wfLastRow preconditions), the fieldMap fallback, and the stream-mode twins"}},
 	"C16": {{Name: "AppendInt/AppendUint exact output", Pkg: "internal/encoder", Template: "encoder_appendint.go",
-		What: "stands in for the [unverified] exact-output clauses of encoder.AppendInt / encoder.AppendUint"}},
+		What: "stands in for the [unverified] exact-output clauses of encoder.AppendInt / encoder.AppendUint"},
+		{Name: "integers in every position", Pkg: ".", Template: "json_int_positions.go",
+			What: "stands in for the choice of emitter and width made by the reflection-driven compilers (trusted in the contracts): every integer kind at its boundary values as value, pointer, struct field (plain, omitempty, string), slice and array element, map key and map value, encoded and decoded, against encoding/json"}},
+	"C04": {{Name: "string escaping and unescaping against encoding/json", Pkg: ".", Template: "json_strings.go",
+		What: "stands in for the string half of the round trip, which is not under a functional contract (the integer leaves are proved): every valid UTF-8 string of the bounded family is encoded and decoded back as value, struct field, map key and slice element through Marshal, MarshalIndent and Encoder/Decoder"}},
+	"C17": {{Name: "string escaping and unescaping against encoding/json", Pkg: ".", Template: "json_strings.go",
+		What: "stands in for WHICH bytes the string emitters write and WHICH character an escape decodes to: the contracts prove that no byte needing an escape is copied, that exactly well-formed UTF-8 is reported valid and that the unescaper is memory-safe on validated bodies, not the escape table or the unescaped value"}},
 }
 
 // lemmas registered per property (table lemmas, automaton inclusions, bit-vector islands)
